@@ -39,8 +39,11 @@ Stages == {"immediate",     \* the very first token / the argument as a whole is
            "nested",        \* the offending part is inside a nested object (a value inside a declaration inside a rule)
            "wrongtype",     \* well-formed text of another kind of rule
            "hierarchy",     \* well-formed but not allowed here
-           "index"}         \* an index outside the list
-Priors  == {"fresh", "populated"}
+           "index",         \* an index outside the list
+           "list"}          \* a rule list as argument whose SECOND member is not allowed here, inserted before the end
+\* "odd": a state that only a particular history produces - priorities written !IMPORTANT, a media list holding 'all' next to
+\* another type (item assignment), a sheet whose head rules are merged / relocated by in-order insertion
+Priors  == {"fresh", "populated", "odd"}
 Attach  == {"alone", "insheet"}
 
 Matrix == {[cls |-> c, mut |-> m, stage |-> s, prior |-> p, attach |-> at, readonly |-> ro] :
